@@ -170,22 +170,22 @@ theorem C08_list_inputs_covers (a : Args) (es : List Entry) (tree : List (Entry 
 
 /-- T3, stated over paths: every file the active loader can open is printed *as its own path* — for a `--templates`
 directory every file below it (any depth, any suffix, also below a symbolically linked sub-directory; a file that is a
-symbolic link is printed as its resolved target), for the built-in package every loadable name.  Two files with the same
+symbolic link is printed as its resolved target), for the built-in package every loadable name — byte code below a
+`__pycache__` directory excepted (the interpreter writes it by itself; no template can name it usefully).  Two files with the same
 base name in different folders are two list items (no de-duplication by name). -/
 theorem C08_list_inputs_every_template_path (a : Args) (es : List Entry) (tree : List (Entry × OutPath))
     (hacc : accepted a = true) (htree : buildTree a (treeEntries a es) = .ok tree) (hon : a.genSupport ≠ .only) :
-    (∀ fs, a.templates = some fs → ∀ f ∈ fs, f.path ∈ (run .listInputs a es).inputs) ∧
-    (a.templates = none → ∀ n ∈ a.lang.loadable,
+    (∀ fs, a.templates = some fs → ∀ f ∈ fs, inPycache f.name = false → f.path ∈ (run .listInputs a es).inputs) ∧
+    (a.templates = none → ∀ n ∈ a.lang.loadable, inPycache n = false →
         (builtinTemplateFile a "templates" n).path ∈ (run .listInputs a es).inputs) := by
   obtain ⟨h1, _, _, _⟩ := C08_list_inputs_covers a es tree hacc htree
   refine ⟨?_, ?_⟩
-  · intro fs ht f hf
+  · intro fs ht f hf hp
     apply h1 hon
-    simp only [typeInputs, typeLoaderFiles, ht]; exact hf
-  · intro ht n hn
+    exact mem_typeInputs a (by simp only [typeLoaderFiles, ht]; exact hf) hp
+  · intro ht n hn hp
     apply h1 hon
-    simp only [typeInputs, typeLoaderFiles, ht, List.mem_map]
-    exact ⟨n, hn, rfl⟩
+    exact mem_typeInputs a (by simp only [typeLoaderFiles, ht, List.mem_map]; exact ⟨n, hn, rfl⟩) hp
 
 /-- The printed items are exactly the enumerated files, with multiplicity: as many items as files (a listing that keeps
 one file per base name prints fewer). -/
@@ -209,7 +209,7 @@ Before the round-2 fixes both failed (`listInputsOnlyBeforeInputsFix`, witnesses
 theorem C08_list_inputs_covers_reads (a : Args) (es : List Entry) (tree : List (Entry × OutPath))
     (hacc : accepted a = true) (htree : buildTree a (treeEntries a es) = .ok tree)
     (hdeps : ∀ x ∈ selected a tree, ∀ d ∈ x.1.deps, d ∈ (selected a tree).map (·.1.src) ∨ d ∈ a.lookupFiles)
-    (hinc : a.templates = none → ∀ n ∈ a.lang.included, n ∈ a.lang.loadable) :
+    (hinc : a.templates = none → ∀ n ∈ a.lang.included, n ∈ a.lang.loadable ∧ inPycache n = false) :
     ∀ r ∈ reads a tree, r ∈ (run .listInputs a es).inputs := by
   obtain ⟨h1, h2, h3, h4⟩ := C08_list_inputs_covers a es tree hacc htree
   intro r hr
@@ -219,11 +219,7 @@ theorem C08_list_inputs_covers_reads (a : Args) (es : List Entry) (tree : List (
     · have hne : a.genSupport ≠ .only := by simpa using hon
       simp only [hon, if_true, List.mem_append, List.mem_map, List.mem_flatMap, List.mem_cons] at hr
       rcases hr with (⟨f, hf, rfl⟩ | ⟨f, hf, rfl⟩) | ⟨x, hx, hrx⟩
-      · apply h1 hne
-        simp only [typeTemplates] at hf
-        cases ht : a.templates with
-        | some fs => simp only [ht, List.mem_filter] at hf; simp only [typeInputs, typeLoaderFiles, ht]; exact hf.1
-        | none => simp only [ht, List.mem_filter] at hf; exact hf.1
+      · exact h1 hne f (typeTemplates_subset_typeInputs a f hf)
       · -- an included file: a file of the built-in package
         unfold includedFiles at hf
         cases ht : a.templates with
@@ -232,8 +228,8 @@ theorem C08_list_inputs_covers_reads (a : Args) (es : List Entry) (tree : List (
           simp only [ht, List.mem_map] at hf
           obtain ⟨n, hn, rfl⟩ := hf
           apply h1 hne
-          simp only [typeInputs, typeLoaderFiles, ht, List.mem_map]
-          exact ⟨n, hinc ht n hn, rfl⟩
+          exact mem_typeInputs a (by simp only [typeLoaderFiles, ht, List.mem_map]; exact ⟨n, (hinc ht n hn).1, rfl⟩)
+            (hinc ht n hn).2
       · rcases hrx with rfl | hd
         · exact h3 hne x hx
         · rcases hdeps x hx r hd with hs | hl
@@ -250,7 +246,7 @@ theorem C08_list_inputs_covers_reads (a : Args) (es : List Entry) (tree : List (
 /-- Generated-table obligation: hypothesis (2) holds for every shipped language — whatever a built-in template includes
 (also the HTML style sheets and scripts) is a loadable file of its package, hence printed. -/
 theorem C08_shipped_includes_are_loadable :
-    ∀ l ∈ table, ∀ n ∈ l.included, n ∈ l.loadable := by
+    ∀ l ∈ table, ∀ n ∈ l.included, n ∈ l.loadable ∧ inPycache n = false := by
   decide
 
 /-- Generated-table obligation: hypothesis (2) holds for the shipped C, C++ and Python template sets (checked
@@ -369,7 +365,7 @@ theorem C08_cli_list_outputs_eq_generated (env : Environ) (argvGen argvList : Li
 
 /-- Generated-table obligation: the calls the three run methods make on the two generators are the ones `Model/Cli.lean`
 transcribes — `_list_outputs_only`: types then support, both dry, both with `--omit-serialization-support`;
-`_list_inputs_only`: type templates, support templates, then the sources; `_generate`: support then types with the same four
+`_list_inputs_only`: type templates, support templates, the sources, then the definitions below the lookup directories; `_generate`: support then types with the same four
 keyword values; the guards are `_should_generate_support()` for the support generator and `generate_support != "only"` for
 the type generator, in all three. -/
 theorem C08_runner_calls_as_modelled :
@@ -380,6 +376,7 @@ theorem C08_runner_calls_as_modelled :
        ("_list_inputs_only", "_support_generator", "get_templates", [.shouldGenerateSupport]),
        ("_list_inputs_only", "_root_namespace", "get_all_types", [.notOnly, .genNsTypes]),
        ("_list_inputs_only", "_root_namespace", "get_all_datatypes", [.notOnly, .notGenNsTypes]),
+       ("_list_inputs_only", "self", "_lookup_dsdl_files", [.notOnly]),
        ("_generate", "_support_generator", "generate_all", [.shouldGenerateSupport]),
        ("_generate", "_generator", "generate_all", [.notOnly])] ∧
     (∀ c ∈ calls, c.method = "_list_outputs_only" →
@@ -397,7 +394,7 @@ def nsOf : Outcome → Namespace
   | .ok ns => ns
   | _ => []
 
-def cEnv : Environ := ⟨table, "/pkg/nunavut/lang", fun _ => []⟩
+def cEnv : Environ := { langs := table, pkgDir := "/pkg/nunavut/lang", dirFiles := fun _ => [] }
 
 /-- Accepted command lines: a cluster `-vd`, the abbreviation `--no-o`, `-lc` (exact option string of `--list-configuration`,
 not `-l c`), `-lcpp` (`-l` with a glued value); the mode the runner takes. -/
